@@ -6,4 +6,22 @@ CHECKS = {
    text='For every enumerated (form, element type, M, K, N, ISA) program the Fastor product and a naive triple loop are interpreted abstractly with all operand cells symbolic; every result cell is shown to be the same polynomial (hence equal for all operand values, exactly over the integers), every result byte is written, nothing else is stored to, all loads stay inside the operands, alignment-requiring accesses are justified and the op tree has at most K roundings-relevant multiplications with no fast-math flags (premise of the K*eps*sum|a||b| bound). A universally quantified per-program proof; the quantifier over shapes is a bounded enumeration.',
    note=TRUSTED + ' Shapes outside the enumerated boxes are not explored. NaN inputs excluded for complex (libstdc++ fallback).'),
 }
+
+def _c(cat, ref, tech, text, note=TRUSTED, engine='irflow'):
+    return dict(category=cat, design_ref=ref, technique=tech, text=text, note=note, engine=engine)
+
+IRF = 'abstract interpretation of clang-emitted LLVM IR (irflow): '
+CHECKS.update({
+ 'C04': _c('proof', 'DESIGN.md §5 C04', IRF + 'copy-flow — every result cell must be exactly the parent cell named by the selection oracle; footprint of every load',
+   'For every enumerated (element type, shape, view kind, index valuation, ISA) r = A(indices/slices) is interpreted with all cells of A symbolic and each result cell is shown to be exactly the selected cell (bit-for-bit copy, for all data), all loads inside A. Index parameters are enumerated (exhaustive for ranks 1-2 small extents, sampled beyond), data is universal.'),
+ 'C05': _c('proof', 'DESIGN.md §5 C05', IRF + 'whole-tensor comparison against a reference that updates only the selected cells (frame condition), plus store footprint',
+   'A(view) op= rhs is interpreted with A inout; the entire tensor is compared with a reference that applies the scalar operator to exactly the oracle-selected cells: selected cells carry op(A_q, rhs_j), every other cell still holds its initial symbol, nothing outside A is stored to. All operators and right-hand-side kinds, with and without FASTOR_USE_VECTORISED_EXPR_ASSIGN.'),
+ 'C14': _c('proof', 'DESIGN.md §5 C14', IRF + 'copy-flow map comparison; static_assert on decltype for extents (tmeta)',
+   'For every enumerated (api, type, permutation, shape, configuration) the result type is asserted by the compiler and every output cell is shown to be exactly the input cell the permutation law names (conjugation negates exactly the imaginary cells); round trips compose to the identity map; legacy permutation<> must follow p or p^-1 consistently for extents and elements.'),
+ 'C17': _c('proof', 'DESIGN.md §5 C17', IRF + 'per-cell polynomial identity with structural zeros as constant inputs; full write coverage',
+   'For every enumerated (type, M, K, N, tag pair, ISA) the triangular product with out-of-triangle cells fixed to 0 equals the ordinary product cell by cell as polynomials; every cell of the MxN result is written; loads stay inside the operands.'),
+ 'C18': _c('proof', 'DESIGN.md §5 C18', IRF + 'same-region source and destination slices; whole-tensor EXACT comparison against a snapshot-then-update reference',
+   'A(dst).noalias() op= A(src) on one inout tensor is interpreted with all cells symbolic and compared, over the whole tensor, with a reference that reads the complete right-hand side before writing; also expressions of overlapping slices, re-armed repeated application through one view object, and perfect overlap without noalias(). Dynamic and compile-time views, five operators.'),
+})
+
 NOT_BUILT = 'check not built yet (build in progress; see DESIGN.md §10)'
